@@ -41,7 +41,7 @@ CLAIMED = {
  'C14': ('Coq proof: every engine model with a custom distance keeps a pair iff lev <= k and custom <= max (generic in the distance), TCRdist glue exact for any tables / CDR3 distance, bundled V tables symmetric with zero diagonal by vm_compute on literals regenerated from the CSVs; differential runs with six custom distances and a vendored pwseqdist stand-in',
          'Theorems C14_* (coq/props/C14.v). Partial for TCRdist: real pwseqdist is absent; what is decided is the glue around it (candidate search, table lookup by row allele, chain sums, threshold, empty result).',
          COMMON_NOTE + 'custom distances symmetric with d(x,x)=0 (stated domain); pandas read_csv/get_indexer; the stand-in CDR3 distance.', 'DESIGN.md section 4 C14'),
- 'C16': ('Coq proof: regenerated Chao kernels = closed forms (field/lra over Q), set algebra by NoDup counting; differential run of extracted model vs implementation',
+ 'C16': ('Coq proof: regenerated Chao kernels = closed forms (field/lra over Q), set algebra by NoDup counting, the three overlap measures regenerated from stats.py proved equal to the set measures; differential run of extracted model vs implementation',
          'Theorems C16_* in coq/props/C16.v: the functions generated from stats.py on this run equal the closed forms for every count vector of length >= 1 (no exception path), a defined estimate is >= S_obs for integer counts, and the overlap measures are the stated set cardinalities, symmetric and invariant under order/duplicates.',
          COMMON_NOTE + 'float64 within 1e-9 of the rational; pandas dropna / Python set semantics.', 'DESIGN.md section 4 C16'),
 }
